@@ -106,7 +106,34 @@ impl Policy {
     }
 }
 
-const FAIL_KIND: io::ErrorKind = io::ErrorKind::BrokenPipe;
+/// the error kinds a failing writer answers with, cycled over the failure point: the render must
+/// surface exactly that kind as `ErrorKind::Io(kind)`
+const FAIL_KINDS: [io::ErrorKind; 20] = [
+    io::ErrorKind::BrokenPipe,
+    io::ErrorKind::InvalidData,
+    io::ErrorKind::InvalidInput,
+    io::ErrorKind::UnexpectedEof,
+    io::ErrorKind::Other,
+    io::ErrorKind::OutOfMemory,
+    io::ErrorKind::PermissionDenied,
+    io::ErrorKind::ConnectionReset,
+    io::ErrorKind::ConnectionAborted,
+    io::ErrorKind::NotConnected,
+    io::ErrorKind::TimedOut,
+    io::ErrorKind::WouldBlock,
+    io::ErrorKind::WriteZero,
+    io::ErrorKind::NotFound,
+    io::ErrorKind::AlreadyExists,
+    io::ErrorKind::AddrInUse,
+    io::ErrorKind::AddrNotAvailable,
+    io::ErrorKind::ConnectionRefused,
+    io::ErrorKind::Unsupported,
+    io::ErrorKind::StorageFull,
+];
+
+fn fail_kind(point: usize) -> io::ErrorKind {
+    FAIL_KINDS[point % FAIL_KINDS.len()]
+}
 
 struct PWriter {
     policy: Policy,
@@ -142,7 +169,7 @@ impl Write for PWriter {
             Policy::Call(k) => {
                 if c >= k {
                     self.refused = true;
-                    return Err(io::Error::new(FAIL_KIND, "injected"));
+                    return Err(io::Error::new(fail_kind(k), "injected"));
                 }
                 buf.len()
             }
@@ -177,7 +204,7 @@ impl Write for PWriter {
                 let left = n - self.accepted.len();
                 if left == 0 && !buf.is_empty() {
                     self.refused = true;
-                    return Err(io::Error::new(FAIL_KIND, "injected"));
+                    return Err(io::Error::new(fail_kind(n), "injected"));
                 }
                 left.min(buf.len())
             }
@@ -793,6 +820,11 @@ fn build_case(ops: &[Op], cfg: Cfg) -> GenCase {
     }
     for (name, _params, has_body) in &em.comp_info {
         entries.push(Entry::Component { name: name.clone(), body: has_body.then(|| "<i>body</i>".to_string()), autoescape });
+        if *has_body {
+            // an empty and a blank body are bodies too
+            entries.push(Entry::Component { name: name.clone(), body: Some(String::new()), autoescape });
+            entries.push(Entry::Component { name: name.clone(), body: Some(" ".to_string()), autoescape });
+        }
     }
     if em.block_names.is_empty() {
         entries.push(Entry::Str { source: str_source, autoescape });
@@ -985,6 +1017,35 @@ fn fixed_cases() -> Vec<(Case, Vec<Entry>)> {
         ],
         vec!["fallback_prefix_fixed"],
     );
+    // includes crossing an autoescape boundary (`.txt` including `.html` and the reverse, nested,
+    // under captures, with components): each template escapes by ITS OWN suffix on every channel
+    add(
+        &[
+            ("mix.txt", "txt[{{ v }}]{% include \"mix_in.html\" %}{% set s %}{% include \"mix_in.html\" %}{% endset %}{{ s }}{% filter upper %}{% include \"mix_in.html\" %}{% endfilter %}{{<mc v={v} />}}"),
+            ("mix.html", "html[{{ v }}]{% include \"mix_in.txt\" %}{% set s %}{% include \"mix_in.txt\" %}{% endset %}{{ s }}{% for i in [1, 2] %}{% include \"mix_in.txt\" %}{% endfor %}{{<mc v={v} />}}"),
+            ("mix_in.html", "<in-html {{ v }} {% include \"mix_deep.txt\" %}{{<mc v={v} />}}>"),
+            ("mix_in.txt", "<in-txt {{ v }} {% include \"mix_deep.html\" %}{{<mc v={v} />}}>"),
+            ("mix_deep.txt", "(deep-txt {{ v }})"),
+            ("mix_deep.html", "(deep-html {{ v }})"),
+            ("mix_ui.html", "{% component mc(v) %}c({{ v }}){% endcomponent mc %}"),
+            ("mix_child.txt", "{% extends \"mix_base.html\" %}{% block b %}child-txt {{ v }}{% include \"mix_in.html\" %}{{ super() }}{% endblock %}"),
+            ("mix_base.html", "base-html {{ v }}[{% block b %}pb {{ v }}{% include \"mix_in.txt\" %}{% endblock %}]"),
+        ],
+        vec![("v", Value::from("<a&'b\">"))],
+        vec![
+            t("mix.txt"),
+            t("mix.html"),
+            t("mix_in.html"),
+            t("mix_in.txt"),
+            t("mix_child.txt"),
+            t("mix_base.html"),
+            Entry::Block("mix_child.txt".into(), "b".into()),
+            Entry::Block("mix_base.html".into(), "b".into()),
+            Entry::Str { source: "s[{{ v }}]{% include \"mix_in.html\" %}{% include \"mix_in.txt\" %}".into(), autoescape: true },
+            Entry::Str { source: "s[{{ v }}]{% include \"mix_in.html\" %}{% include \"mix_in.txt\" %}".into(), autoescape: false },
+        ],
+        vec!["include_across_autoescape_boundary"],
+    );
     // a non-empty global context: keys only there, only in the call context, and in both (the
     // call context wins) — on every channel pair
     add(
@@ -1105,6 +1166,10 @@ fn fixed_cases() -> Vec<(Case, Vec<Entry>)> {
             Entry::Component { name: "btn".into(), body: None, autoescape: true },
             Entry::Component { name: "wrap".into(), body: Some("<raw&body>".into()), autoescape: true },
             Entry::Component { name: "wrap".into(), body: Some("<raw&body>".into()), autoescape: false },
+            Entry::Component { name: "wrap".into(), body: Some("".into()), autoescape: true },
+            Entry::Component { name: "wrap".into(), body: Some(" ".into()), autoescape: false },
+            Entry::Component { name: "wrap".into(), body: None, autoescape: true },
+            Entry::Component { name: "card".into(), body: Some("".into()), autoescape: true },
             Entry::Component { name: "nope".into(), body: None, autoescape: true },
         ],
         vec!["components_nested", "include_in_capture"],
@@ -1190,13 +1255,13 @@ fn reference(tera: &Tera, entry: &Entry, ctx: &Context) -> Reference {
 }
 
 /// expected accepted bytes for a policy given the reference; None = failure point not reached
-fn expected(refr: &Reference, p: &Policy) -> (Option<&'static str>, Vec<u8>) {
+fn expected(refr: &Reference, p: &Policy) -> (Option<String>, Vec<u8>) {
     match p {
         Policy::All | Policy::Trickle | Policy::Interrupt => (None, refr.full.clone()),
         Policy::Call(k) | Policy::Zero(k) => {
             if *k < refr.trace.len() {
                 let n: usize = refr.trace[..*k].iter().sum();
-                (Some(if matches!(p, Policy::Zero(_)) { "io:WriteZero" } else { "io:BrokenPipe" }), refr.full[..n].to_vec())
+                (Some(if matches!(p, Policy::Zero(_)) { "io:WriteZero".to_string() } else { format!("io:{:?}", fail_kind(*k)) }), refr.full[..n].to_vec())
             } else {
                 (None, refr.full.clone())
             }
@@ -1209,12 +1274,12 @@ fn expected(refr: &Reference, p: &Policy) -> (Option<&'static str>, Vec<u8>) {
             } else {
                 let before: usize = refr.trace[..*call].iter().sum();
                 let k = if *take > 0 && refr.trace[*call] > 1 { (*take).min(refr.trace[*call] - 1) } else { 0 };
-                (Some(if *kind == 0 { "io:WouldBlock" } else { "io:TimedOut" }), refr.full[..before + k].to_vec())
+                (Some(if *kind == 0 { "io:WouldBlock".to_string() } else { "io:TimedOut".to_string() }), refr.full[..before + k].to_vec())
             }
         }
         Policy::Bytes(n) => {
             if *n < refr.full.len() {
-                (Some("io:BrokenPipe"), refr.full[..*n].to_vec())
+                (Some(format!("io:{:?}", fail_kind(*n))), refr.full[..*n].to_vec())
             } else {
                 (None, refr.full.clone())
             }
@@ -1225,7 +1290,7 @@ fn expected(refr: &Reference, p: &Policy) -> (Option<&'static str>, Vec<u8>) {
 fn check_policy(tera: &Tera, entry: &Entry, ctx: &Context, refr: &Reference, p: &Policy) -> Result<PolicyRun, (String, PolicyRun)> {
     let run = run_policy(tera, entry, ctx, p.clone());
     let (want_io, want_bytes) = expected(refr, p);
-    let want_class = want_io.map(|s| s.to_string()).unwrap_or_else(|| refr.class.clone());
+    let want_class = want_io.unwrap_or_else(|| refr.class.clone());
     if run.class != want_class {
         let msg = format!("writer policy {}: render_to ended `{}`, expected `{}` (writer refused a call: {})", p.name(), run.class, want_class, run.refused);
         return Err((msg, run));
@@ -1815,7 +1880,7 @@ fn replay(path: &str, env: &Env) {
         let run = run_policy(&tera, &entry, &ctx, p.clone());
         let (want_io, want) = expected(&refr, &p);
         println!("policy {}: implementation `{}` accepted {:?}", p.name(), run.class, String::from_utf8_lossy(&run.accepted));
-        println!("policy {}: property demands `{}` accepted {:?}", p.name(), want_io.map(|s| s.to_string()).unwrap_or(refr.class.clone()), String::from_utf8_lossy(&want));
+        println!("policy {}: property demands `{}` accepted {:?}", p.name(), want_io.unwrap_or(refr.class.clone()), String::from_utf8_lossy(&want));
         if let (Some(prog), Some(pw)) = (&case.program, p.wire()) {
             let blk = match &entry {
                 Entry::Block(_, b) => hex(b.as_bytes()),
